@@ -380,7 +380,8 @@ fn struct_space(delta1_len: u32) -> Space {
             }
         }
     }
-    let radices = [inits.len() as u64, deltas.len() as u64, n_short, LAYOUTS.len() as u64];
+    // last factor: where the block under test stands in the FILE (between the other two / last, ending the file)
+    let radices = [inits.len() as u64, deltas.len() as u64, n_short, LAYOUTS.len() as u64, 2];
     let n = product(&radices);
     let inits = std::sync::Arc::new(inits);
     let deltas = std::sync::Arc::new(deltas);
@@ -391,6 +392,9 @@ fn struct_space(delta1_len: u32) -> Space {
         let init = &i2[d[0] as usize];
         let (a1, a2) = LAYOUTS[d[3] as usize];
         let mut text = String::from("MODULE Linux x86_64 000000000000000000000000000000000 m\nSTACK CFI INIT 0 10 .cfa: 1000 .ra: 2000\nSTACK CFI 8 a: 3000\n");
+        if d[4] == 1 {
+            text += "STACK CFI INIT 30 10 .cfa: 4000 .ra: 5000 b: 6000\n";
+        }
         text += &format!("STACK CFI INIT 10 20 {init}\n");
         let mut ds = vec![];
         for (addr, which) in [(a1, d[1]), (a2, d[2])] {
@@ -399,7 +403,9 @@ fn struct_space(delta1_len: u32) -> Space {
                 ds.push((addr, r.clone()));
             }
         }
-        text += "STACK CFI INIT 30 10 .cfa: 4000 .ra: 5000 b: 6000\n";
+        if d[4] == 0 {
+            text += "STACK CFI INIT 30 10 .cfa: 4000 .ra: 5000 b: 6000\n";
+        }
         let recs = vec![
             CfiRecord { address: 0, size: 0x10, init_rules: ".cfa: 1000 .ra: 2000".into(), deltas: vec![(8, "a: 3000".into())] },
             CfiRecord { address: 0x10, size: 0x20, init_rules: init.clone(), deltas: ds },
